@@ -161,7 +161,6 @@ Lemma pop_to_tag_inv deep eqres deep' eqres' s name :
   snd (d_pop_to_tag deep eqres cfg s name) <= 3.
 Proof.
   intros Hinv. unfold d_pop_to_tag.
-  destruct (str_eqb name (pc_root cfg)); [split; [reflexivity|split; [exact Hinv|(cbn [fst snd]; cl)]]|].
   destruct (open_count s name); [split; [reflexivity|split; [exact Hinv|(cbn [fst snd]; cl)]]|].
   destruct (pop_to_inv deep eqres deep' eqres' (length (ps_stack s)) s name Hinv) as (He & Hi & Hc).
   rewrite <- He. destruct (pop_to deep eqres (length (ps_stack s)) s name) as [s' c]. cbn [fst snd] in *.
@@ -233,8 +232,8 @@ Proof.
     { apply Forall_const_map. intros; (cbn [fst snd]; cl). }
     assert (Hmid : Forall (fun x => x <= 4) [d1; leaf; leaf]) by (fall; [exact Hd1|cl|cl]).
     destruct sc.
-    + destruct (adapter_endtag_inv deep eqres deep' eqres' s1 name true Hi1) as (He & Hi & Hc).
-      rewrite <- He. destruct (adapter_endtag deep eqres cfg s1 name true) as [s2 c2]. cbn [fst snd] in *.
+    + destruct (adapter_endtag_inv deep eqres deep' eqres' s1 name false Hi1) as (He & Hi & Hc).
+      rewrite <- He. destruct (adapter_endtag deep eqres cfg s1 name false) as [s2 c2]. cbn [fst snd] in *.
       split; [reflexivity|split; [exact Hi|]]. repeat (apply Forall_app; split); assumption.
     + destruct (memS name (pc_void cfg)).
       * destruct (adapter_endtag_inv deep eqres deep' eqres' s1 name false Hi1) as (He & Hi & Hc).
